@@ -19,7 +19,7 @@ def builds_needed(tier):
 
 def bounds(tier):
     return {"scrypt_log2N": "1..=10" if tier == "thorough" else "1..=6 (+ spot 10)", "scrypt_r": "1..=8", "scrypt_p": "1..=4",
-            "pbkdf2_c_max": 1000, "hkdf_L_max": "255*HashLen (and +1, 256*HashLen refused)"}
+            "pbkdf2_c_max": 4096 if tier == "thorough" else 1000, "hkdf_digests": 13 if tier == "thorough" else 5, "hkdf_L_max": "255*HashLen (and +1, 256*HashLen refused)"}
 
 
 def validate_models(tier):
@@ -29,8 +29,11 @@ def validate_models(tier):
 HK = ["sha1", "sha256", "sha512", "sha3_256", "blake2b:64"]
 
 
+HK_MORE = ["sha224", "sha384", "sha512_256", "sha3_512", "keccak256", "ripemd160", "blake2s:32", "blake2b:20"]
+
+
 def shards(tier):
-    sh = [("shard_hkdf", k) for k in HK]
+    sh = [("shard_hkdf", k) for k in (HK + HK_MORE if tier == "thorough" else HK)]
     sh += [("shard_pbkdf2", k) for k in ("sha1", "sha256", "sha512")]
     maxn = 10 if tier == "thorough" else 6
     for ln in range(1, maxn + 1):
@@ -77,11 +80,11 @@ def shard_pbkdf2(kind, tier):
     cases = []
     pws = [(0, b""), (1, pat(5, 0, 8)), (2, pat(5, 0, B + 3))]
     salts = [(0, b""), (1, pat(6, 0, 8)), (2, pat(6, 0, 61))]
-    for c in (1, 2, 3, 4, 5, 10, 100, 1000):
+    for c in ((1, 2, 3, 4, 5, 6, 7, 8, 9, 10, 16, 17, 100, 255, 256, 257, 1000, 4096) if tier == "thorough" else (1, 2, 3, 4, 5, 10, 100, 1000)):
         for dk in (1, Hn - 1, Hn, Hn + 1, 2 * Hn, 2 * Hn + 1, 3 * Hn + 7):
             for _, pw in pws:
                 for _, salt in salts:
-                    if c == 1000 and tier != "thorough" and (len(pw) != 8 or dk not in (Hn + 1, 1)):
+                    if c >= 1000 and tier != "thorough" and (len(pw) != 8 or dk not in (Hn + 1, 1)):
                         continue
                     exp = macs.pbkdf2(kind, pw, salt, c, dk)
                     cases.append((["pbkdf2 %s %s %s %d %d" % (kind, H(pw), H(salt), c, dk)], [obs_of(exp)], None))
